@@ -88,22 +88,55 @@ def machine(lines):
 
 
 def regions(lines):
-    """[[lines of region 1], ...] with whitespace-only lines as ''"""
+    """[[lines of region 1], ...] with whitespace-only lines as ''; one entry per disabling marker, possibly empty"""
     regs = []
     cur = None
+    prev_off = False
     for l, (off, inreg) in zip(lines, machine(lines)):
+        if off and not prev_off:
+            cur = []
+            regs.append(cur)
+        prev_off = off
         if inreg:
-            if cur is None:
-                cur = []
-                regs.append(cur)
             cur.append("" if l.strip(" \t") == "" else l)
-        else:
-            cur = None
     return regs
 
 
 def outside(lines):
     return [l for l, (off, inreg) in zip(lines, machine(lines)) if not inreg]
+
+
+def marker_lines(lines):
+    return [" ".join(l.split()) for l in lines if OFFM in l or ONM in l or l.strip().startswith(("#pragma", "#asm", "#endasm"))]
+
+
+def locate(rin, out_lines):
+    """the regions of the input as contiguous blocks of the output, in order: [(start, end)] or None.  Used only when a comment
+    option rewrote the marker comments themselves (merged two comments), so that re-reading the output finds other regions."""
+    norm = ["" if l.strip(" \t") == "" else l for l in out_lines]
+    pos, res = 0, []
+    for r in rin:
+        core = list(r)
+        while core and core[0] == "":
+            core.pop(0)
+        while core and core[-1] == "":
+            core.pop()
+        if not core:
+            res.append((pos, pos))
+            continue
+        k = pos
+        while k + len(core) <= len(norm) and norm[k:k + len(core)] != core:
+            k += 1
+        if k + len(core) > len(norm):
+            return None
+        a_, b_ = k, k + len(core)
+        while a_ > pos and norm[a_ - 1] == "":
+            a_ -= 1
+        while b_ < len(norm) and norm[b_] == "":
+            b_ += 1
+        res.append((a_, b_))
+        pos = b_
+    return res
 
 
 def split(text):
@@ -123,11 +156,19 @@ def _job(a):
     obs.write(cfg, cfgtext)
     rc, so, se, evs = obs.run(unc, ["-c", cfg, "-q", "-l", lang, "-f", src], cwd=tmp, trace=os.path.join(tmp, "r%d.nd" % i), timeout=20)
     res = []
+    reshaped = None
     rid = "file|%d" % i
     ev = {"e": "File", "id": rid, "rc": rc, "kinds": kinds, "regs": [], "nregs_out": 0, "ign": [], "ign_expected": []}
     if rc == 0:
         out = obs.decode(so)
         rin, rout = regions(split(text)), regions(split(out))
+        if rin != rout and marker_lines(split(text)) != marker_lines(split(out)):
+            loc = locate(rin, split(out))
+            if loc is not None:
+                norm_out = ["" if l.strip(" \t") == "" else l for l in split(out)]
+                rout = [norm_out[a_:b_] if r_ and any(x != "" for x in r_) else list(r_) for r_, (a_, b_) in zip(rin, loc)]
+                reshaped = loc
+                ev["reshaped"] = True
         ev["nregs_out"] = len(rout)
         ev["regs"] = [{"i": a_, "o": (rout[k] if k < len(rout) else ["<missing>"])} for k, a_ in enumerate(rin)]
         tk = obs.event(evs, "Tokenized")
@@ -158,6 +199,13 @@ def _job(a):
         os.unlink(src2)
         if rc2 == 0:
             o1, o2 = outside(split(obs.decode(so))), outside(split(obs.decode(so2)))
+            if reshaped is not None:
+                l1, l2 = split(obs.decode(so)), split(obs.decode(so2))
+                loc2 = locate(regions(split(text2)), l2)
+                if loc2 is None:
+                    loc2 = []
+                o1 = [l for k, l in enumerate(l1) if not any(a_ <= k < b_ for a_, b_ in reshaped)]
+                o2 = [l for k, l in enumerate(l2) if not any(a_ <= k < b_ for a_, b_ in loc2)]
             res.append({"e": "Opaque", "id": "opaque|%d" % i,
                         "ids": [hashlib.sha1("\n".join(o1).encode()).hexdigest()[:12], hashlib.sha1("\n".join(o2).encode()).hexdigest()[:12]]})
     os.unlink(src)
